@@ -28,13 +28,22 @@ def df_rows(df):
 def df_key(df):
     """Canonical key of EVERYTHING a later operation could read from a DataFrame: column order, dtypes,
     index labels, row order and exact cell bit patterns (NaN canonicalised)."""
-    parts = [repr(list(df.columns)), repr([str(t) for t in df.dtypes]), repr(list(df.index))]
-    for c in df.columns:
-        col = df[c]
-        try:
-            a = np.asarray(col, dtype=np.float64).copy()
+    parts = [repr(list(df.columns)), repr([str(t) for t in df.dtypes.values]), repr(df.index.tolist())]
+    try:
+        a = df.to_numpy()
+        if a.dtype == np.float64:
+            a = a.copy()
             a[np.isnan(a)] = np.nan
             parts.append(a.tobytes().hex())
-        except (ValueError, TypeError):
-            parts.append(repr(list(col)))
+        else:
+            raise TypeError
+    except (ValueError, TypeError):
+        for c in df.columns:
+            col = df[c]
+            try:
+                a = np.asarray(col, dtype=np.float64).copy()
+                a[np.isnan(a)] = np.nan
+                parts.append(a.tobytes().hex())
+            except (ValueError, TypeError):
+                parts.append(repr(list(col)))
     return "|".join(parts)
